@@ -50,12 +50,15 @@ class Parser:
             raise FormulaError(expression)
         builder = self.ast_builder(match=match)
         filters, tokens, stack = self.filters, [], []
-        Parenthesis('(').ast(tokens, stack, builder)
+        root = Parenthesis('(')
+        root.ast(tokens, stack, builder)
         while expr:
             for f in filters:
                 try:
                     token = f(expr, context)
                     token.ast(tokens, stack, builder)
+                    if not stack or stack[0] is not root:  # E.g., `=1)+(2`.
+                        raise ParenthesesError()
                     expr = expr[token.end_match:]
                     break
                 except TokenError:
